@@ -1,5 +1,60 @@
-import TcheranVerif.Model.Search
+import TcheranVerif.Props.C19
+import TcheranVerif.Gen.SearchParams
+import TcheranVerif.Model.Time
+/-!
+# C13 — every advertised option value is accepted and survivable
+
+With the ranges regenerated from `uci/options.rs` (`Gen/SearchParams`):
+* `hash_range`, `threads_range`, `overhead_range` — the advertised spin ranges and that each default
+  lies inside its range;
+* `table_total` — for **every** Hash value in the advertised range (the minimum 0 included) and every
+  sequence of table operations the table stays well-formed, has `mb · 65,536` slots, and probing /
+  inserting never divides by zero (`Props.C19.wf_run`; the model's `n = 0` guard mirrors the `fix:`);
+* `overhead_total` — for every advertised Move Overhead the limit computation is total whenever
+  moves-to-go is not 0 (`Props.C14`).
+That the real engine answers `isready` and completes `go depth 3` with a legal move after each value
+is decided on the binary (boundaries, neighbours, random interior values): partial.
+-/
 namespace Tcheran.Props.C13
-theorem placeholder : True := trivial
+open Tcheran
+
+theorem hash_range : Gen.opt_hash = (0, 256, 1024) := by decide
+theorem threads_range : Gen.opt_threads = (1, 1, 1) := by decide
+theorem overhead_range : Gen.opt_moveOverhead = (0, 0, 1000) := by decide
+
+theorem defaults_in_range :
+    Gen.opt_hash.1 ≤ Gen.opt_hash.2.1 ∧ Gen.opt_hash.2.1 ≤ Gen.opt_hash.2.2 ∧
+    Gen.opt_threads.1 ≤ Gen.opt_threads.2.1 ∧ Gen.opt_threads.2.1 ≤ Gen.opt_threads.2.2 ∧
+    Gen.opt_moveOverhead.1 ≤ Gen.opt_moveOverhead.2.1 ∧ Gen.opt_moveOverhead.2.1 ≤ Gen.opt_moveOverhead.2.2 := by
+  decide
+
+/-- every advertised hash size: slot count, well-formedness after any operation sequence -/
+theorem table_total (mb : Nat) (_h : Gen.opt_hash.1 ≤ mb ∧ mb ≤ Gen.opt_hash.2.2) (ops : List Props.C19.Op) :
+    (TT.new mb).n = mb * 65536 ∧ Props.C19.WF (ops.foldl Props.C19.apply (TT.new mb)) :=
+  ⟨Props.C19.entries_per_mb mb, Props.C19.wf_run mb ops⟩
+
+/-- the smallest advertised size: a table with no slots never answers and never stores -/
+theorem hash_zero_inert (k : BB) (d : TT.Data) : (TT.new 0).get k = none ∧ (TT.new 0).insert k d = TT.new 0 := by
+  constructor
+  · simp [TT.Table.get, TT.new, TT.empty, TT.entriesFor, TT.entrySize]
+  · simp [TT.Table.insert, TT.new, TT.empty, TT.entriesFor, TT.entrySize]
+
+theorem overhead_total (white : Bool) (c : Time.Clocks) (oh : Nat) (_h : oh ≤ Gen.opt_moveOverhead.2.2)
+    (hm : c.movestogo ≠ some 0) : ∃ s hd, Time.limits white (.clocks c) oh = some (s, hd) := by
+  unfold Time.limits
+  simp only
+  cases hmm : c.movestogo with
+  | none => exact ⟨_, _, rfl⟩
+  | some m =>
+    cases m with
+    | zero => exact absurd hmm hm
+    | succ k => exact ⟨_, _, rfl⟩
+
 end Tcheran.Props.C13
-#print axioms Tcheran.Props.C13.placeholder
+#print axioms Tcheran.Props.C13.hash_range
+#print axioms Tcheran.Props.C13.threads_range
+#print axioms Tcheran.Props.C13.overhead_range
+#print axioms Tcheran.Props.C13.defaults_in_range
+#print axioms Tcheran.Props.C13.table_total
+#print axioms Tcheran.Props.C13.hash_zero_inert
+#print axioms Tcheran.Props.C13.overhead_total
